@@ -64,3 +64,26 @@ def cases(feats, sizes, with_style=True, **kw):
                     ix.name = ix.name.replace('"', "''")
         return s, (draw(gen.styles()) if with_style else None)
     return c()
+
+
+EDIT = None
+
+
+def edit_scripts(max_size=4):
+    """Edit scripts in the format of C10 (applied after a first rendering: 'every database' includes the ones
+    reached by rendering, editing in place and rendering again)."""
+    from . import c10
+    edit = st.tuples(st.sampled_from(c10.EDITS), st.integers(0, 20), st.integers(0, 20), st.integers(0, 40))
+    return st.lists(edit, max_size=max_size)
+
+
+def edited(s, db, script):
+    """Apply an edit script to (a normalised copy of) the schema and to the live database.
+    Returns the edited schema, or None if nothing was applied."""
+    from . import c10
+    s2 = c10.normalize(s)
+    applied = 0
+    for k, e in enumerate(script):
+        if c10.apply_edit(s2, db, tuple(e), k):
+            applied += 1
+    return s2 if applied else None
